@@ -431,6 +431,25 @@ def _run(ix, R):
                     L = 'N' if ls == {'N'} else str(ls)
                 else:
                     L = length(fl, v, N, arrays)
+                if L is None:
+                    # returned under an explicit `len(x) == len(y)` test: x (or its reversal) has the length of y
+                    arr_ = v
+                    ba = atom_of(fl, arr_)
+                    if ba is not None and ba.head == 'idx' and len(ba.args) == 2 and isinstance(ba.args[1], Slice) and \
+                            ba.args[1].lo is None and ba.args[1].hi is None:
+                        arr_ = ba.args[0]
+                    for g in r.guards:
+                        ga = atom_of(fl, g.rf) if g.rf is not None else None
+                        if not g.positive or ga is None or ga.head != 'cmp' or ga.extra != ('Eq',):
+                            continue
+                        for x_, y_ in ((ga.args[0], ga.args[1]), (ga.args[1], ga.args[0])):
+                            xa, ya = atom_of(fl, x_), atom_of(fl, y_)
+                            if xa is not None and ya is not None and xa.head == ya.head == 'call' and \
+                                    xa.extra == ya.extra == ('fn:len',) and fl.tab.equal(xa.args[0], arr_) and \
+                                    length(fl, ya.args[0], N, arrays) == 'N':
+                                L = 'N'
+                if L is None:
+                    raise AnalysisError('the length of the returned `%s` is not determined' % unparse(r.value_ast)[:60])
                 if L != 'N':
                     bad.append('%s has length class %s' % (unparse(r.value_ast)[:50], L))
             R.check('3.len', 'SHAPE', site, 'every returned profile has nlayers entries', not bad,
